@@ -8,6 +8,7 @@ import build, obs, streams
 TIERS = {
     # stream -> (quick params, thorough params)
     "fn_c04": ({"n": 6000}, {"n": 120000}),
+    "matrix": ({"shards": 4, "histories": 4, "length": 40}, {"shards": 16, "histories": 40, "length": 60}),
     "world": ({"shards": 8, "histories": 30, "length": 60}, {"shards": 16, "histories": 500, "length": 80}),
     "world_mini": ({"shards": 4, "histories": 30, "length": 60}, {"shards": 16, "histories": 250, "length": 80}),
 }
@@ -34,8 +35,8 @@ def ensure_tools(variants=("default",)):
 
 
 def shard_world(args):
-    exe, backend, seed, histories, length, prefix, model = args
-    t = streams.gen_world(exe, backend, seed, histories, length, prefix)
+    exe, mode, backend, seed, histories, length, prefix, model = args
+    t = streams.gen_world(exe, mode, backend, seed, histories, length, prefix)
     rc, out, t2 = run([model, prefix + ".ops", prefix + ".model"], timeout=3000)
     if rc != 0:
         raise RuntimeError("model run failed on %s: %s" % (prefix, out[-2000:]))
@@ -54,10 +55,11 @@ def get_stream(name, seed, tier, b, fp):
         shutil.rmtree(d, ignore_errors=True)
         os.makedirs(d)
         meta = {"name": name, "dir": d, "prefixes": [], "params": params, "gen_s": 0.0, "model_s": 0.0}
-        if name.startswith("world"):
+        if name.startswith("world") or name == "matrix":
             variant = "miniwasm" if name == "world_mini" else "default"
             backend = "miniwasm" if name == "world_mini" else "osmosis"
-            jobs = [(b.exe[variant], backend, seed * 1000 + k, params["histories"], params["length"],
+            mode = "matrix" if name == "matrix" else "world"
+            jobs = [(b.exe[variant], mode, backend, seed * 1000 + k, params["histories"], params["length"],
                      os.path.join(d, "s%d" % k), b.model) for k in range(params["shards"])]
             with cf.ThreadPoolExecutor(max_workers=16) as ex:
                 for prefix, t, t2 in ex.map(shard_world, jobs):
@@ -132,10 +134,11 @@ def run_ops(b, ops_lines, tag, variant="default"):
 
 
 def tx_blocks(ops_lines):
-    """split a history into [header lines], [blocks]; a block is one transaction or one stand-alone op"""
+    """split a history into [header lines], [blocks]; a block is one transaction or one stand-alone op.
+    The header keeps the cfg line and the instantiation (never removed by shrinking)."""
     head = []; blocks = []; cur = None
     for l in ops_lines:
-        if l.startswith("cfg ") or l.startswith("inst ") and cur is None and not blocks:
+        if l.startswith("cfg "):
             head.append(l); continue
         if l == "tx_begin":
             cur = [l]; continue
@@ -147,7 +150,29 @@ def tx_blocks(ops_lines):
         blocks.append([l])
     if cur:
         blocks.append(cur)
+    for k, bk in enumerate(blocks):
+        if any(l.startswith(("inst ", "tinst ")) for l in bk):
+            head += [l for b2 in blocks[:k + 1] for l in b2]
+            blocks = blocks[k + 1:]
+            break
     return head, blocks
+
+
+def first_diff(pi, pm):
+    k = next((k for k, (a, c) in enumerate(zip(pi, pm)) if a != c), min(len(pi), len(pm)))
+    a = pi[k] if k < len(pi) else "<missing>"
+    c = pm[k] if k < len(pm) else "<missing>"
+    return a, c
+
+
+def diff_key(a, c):
+    """what kind of line differs (used to keep a shrunk replay on the same disagreement)"""
+    def key(l):
+        sp = l.split(" ")
+        if len(sp) < 2:
+            return l
+        return obs.facet(l)
+    return key(a), key(c)
 
 
 def ddmin(blocks, test):
